@@ -76,6 +76,32 @@ def demoSchedule : List Choice :=
    .gate 1 0 1, .run 4 [] 0, .gate 2 0 1, .run 3 [] 0, .run 0 [] 0]
 
 
+/-- the last step of a checked run, taken apart -/
+theorem liveRun_snoc {P : Program} : ∀ (cs : List Choice) (c : Choice) (s0 s' : St), Live P s0 →
+    liveRun P s0 (cs ++ [c]) = some s' →
+    ∃ s obs, Live P s ∧ s.outcome = none ∧ OracleOK P s c ∧ step P s c = some (s', obs)
+  | [], c, s0, s', hl, hr => by
+    simp only [List.nil_append, liveRun] at hr
+    split at hr
+    · next hc =>
+      simp only [Bool.and_eq_true, Option.isNone_iff_eq_none] at hc
+      split at hr
+      · next s1 obs hs =>
+        simp only [liveRun, Option.some.injEq] at hr
+        subst hr
+        exact ⟨s0, obs, hl, hc.1, oracleOK_of_b hc.2, hs⟩
+      · cases hr
+    · cases hr
+  | c0 :: cs, c, s0, s', hl, hr => by
+    simp only [List.cons_append, liveRun] at hr
+    split at hr
+    · next hc =>
+      simp only [Bool.and_eq_true, Option.isNone_iff_eq_none] at hc
+      split at hr
+      · next s1 obs hs => exact liveRun_snoc cs c s1 s' (.step hl hc.1 (oracleOK_of_b hc.2) hs) hr
+      · cases hr
+    · cases hr
+
 theorem idle_of_all {s : St} (h : s.tasks.all (fun tk => !isRunnable tk) = true) :
     ∀ (i : Nat) (tk : Task), s.tasks[i]? = some tk → isRunnable tk = false := by
   intro i tk hi
